@@ -246,7 +246,7 @@ func (g *streamGen) signal(kind string, allowNext bool, maxAt int) *Sig {
 var selectorPool = []string{"$", "$.items", "$.a", "$.b", "$[0]", "$[-1]", "$[1]", "$.items[0]", "$.a[-1]", "$.zz"}
 
 // traceProgram draws a trace program. richness: 0 small .. 2 many rules.
-func (g *streamGen) traceProgram(noBodyOK bool, sigProb int, rerootOK bool) *TProg {
+func (g *streamGen) traceProgram(noBodyOK bool, sigProb int, rerootOK bool, setFileOK bool) *TProg {
 	t := g.t
 	p := &TProg{FuncsFirst: t.Chance(1, 2), Semis: t.Chance(1, 4)}
 	counts := map[string]int{}
@@ -273,6 +273,12 @@ func (g *streamGen) traceProgram(noBodyOK bool, sigProb int, rerootOK bool) *TPr
 		}
 		if (k == "BEGIN" || k == "END") && t.Chance(1, 4) {
 			r.SetDollar = true
+		}
+		if (k == "BEGIN" || k == "END" || (k == "BEGINFILE" && noBodyOK)) && t.Chance(1, 8) {
+			r.NoBody = true
+		}
+		if k == "ENDFILE" && setFileOK && t.Chance(1, 5) {
+			r.SetFile = true
 		}
 		if k == "BEGINFILE" && rerootOK && t.Chance(1, 4) {
 			r.Reroot = selectorPool[t.Draw(len(selectorPool))]
@@ -329,7 +335,7 @@ func fixNoBody(p *TProg) {
 		if !rules[i].NoBody {
 			continue
 		}
-		if rules[i].Pat == nil {
+		if rules[i].Pat == nil && rules[i].Kind == "PATTERN" {
 			rules[i].NoBody = false
 			continue
 		}
@@ -519,7 +525,9 @@ func genStreamCase(t *Tape, o streamGenOpts) *StreamCase {
 	noBodyOK := (g.profile == 0 || g.profile == 1) && !g.rich
 	// re-rooting BEGINFILE rules only without -r selectors: assigning to a $
 	// that a selector produced is not described by the statement or the README
-	c.Prog = g.traceProgram(noBodyOK, o.sigProb, !useSel && (g.rich || t.Chance(1, 8)))
+	// $file is only overwritten (by an ENDFILE rule) when there is at most one
+	// selector: whether it is re-published per value or per selector root is not fixed
+	c.Prog = g.traceProgram(noBodyOK, o.sigProb, !useSel && (g.rich || t.Chance(1, 8)), len(c.Selectors) <= 1)
 	c.ProgText = c.Prog.Render()
 	// selectors / reroots that leave the model domain on this data are replaced by "$"
 	sanitizeSelectors(c)
